@@ -102,7 +102,7 @@ func checkC19(c *Ctx, r *Report) {
 			if cc == nil || !cc.IsInvoke() {
 				return
 			}
-			if !isNamed(cc.Value.Type(), pkgDomain, "EndpointSelector") {
+			if _, isIface := cc.Value.Type().Underlying().(*types.Interface); !isIface { // domain.EndpointSelector or a narrower interface with the two methods
 				return
 			}
 			switch cc.Method.Name() {
